@@ -33,6 +33,9 @@ func rulesC13(c *Ctx) {
 	ruleConvergence(c)
 	ruleLockDiscipline(c, lockSel{classes: clientLockClasses, pkgs: []string{"client"}, pairing: true})
 	ruleLockOrder(c, "client data plane")
+	ruleAtomicUpdate(c, []string{"client"}, 3) // a queue rewritten from its own contents is read and written in one critical section (no lost result)
+	ruleResetForgets(c)                        // Reset forgets what was queued for the old stream, the request channel's buffer included (shared with C14): a stale request would be sent unaccounted
+	ruleErrorSinks(c)                          // the recorded errors AwaitConverged returns are complete (shared with C14)
 }
 
 func rulesC14(c *Ctx) {
@@ -46,6 +49,7 @@ func rulesC14(c *Ctx) {
 	ruleLockDiscipline(c, lockSel{classes: clientLockClasses, pkgs: []string{"client"}, blocking: true, pairing: true, noGuarded: true})
 	ruleConnectLifecycle(c)
 	ruleErrorsRecorded(c)
+	ruleErrorSinks(c)
 	ruleResetForgets(c)
 	ruleLockOrder(c, "client Reset")
 	ruleLockOrder(c, "client Close")
@@ -130,6 +134,18 @@ func ruleClearPendingTable(c *Ctx) {
 				return "ret(" + full + ", nil) effects[dequeue]", true
 			}
 			return "ret(" + full + ", nil)", true
+		},
+	})
+	// the cell the main table leaves out, as an obligation of its own: in FIB-ack mode a RIB_PROGRAMMED for an
+	// id that is not pending is tolerated as "RIB ack after FIB ack" — for any id, also one that was never sent
+	runTable(c, tableSpec{
+		Rule: "TABLE-CLEAR-PENDING", Fn: fi, Construct: "a result for an id that is not pending is an error, also RIB_PROGRAMMED in FIB-ack mode", Events: ev,
+		Atoms: map[string]int{aFlag: 2, aPending: 2, st("FAILED"): 2, st("RIB_PROGRAMMED"): 2, st("FIB_PROGRAMMED"): 2, st("FIB_FAILED"): 2, aFIBMode: 2, aVNil: 2},
+		Expected: func(v *Valuation) (string, bool) {
+			if v.B(aFlag) || v.B(aPending) || !(v.B(st("RIB_PROGRAMMED")) && v.B(aFIBMode)) {
+				return "", false
+			}
+			return "ret(nil, err(plain))", true
 		},
 	})
 	// the result's fields come from the pending operation / the received result
@@ -411,6 +427,7 @@ func ruleResponseHandling(c *Ctx) {
 	}
 	info := fi.Pkg.TypesInfo
 	m := paramObjs(info, fi.Decl)[0]
+	resOf := map[*ast.CallExpr]types.Object{}
 	ev := func(n ast.Node) []Event {
 		var out []Event
 		inspectNoFuncLit(n, func(x ast.Node) bool {
@@ -422,6 +439,7 @@ func ruleResponseHandling(c *Ctx) {
 						var errObj types.Object
 						if as := assignedFromCall(info, n, y); len(as) == 2 {
 							errObj = as[1]
+							resOf[y] = as[0]
 						}
 						out = append(out, Event{Kind: f.Name(), Node: y, Data: errObj})
 					}
@@ -465,21 +483,41 @@ func ruleResponseHandling(c *Ctx) {
 		for _, e := range p.Events {
 			seq = append(seq, e.Kind)
 		}
-		if strings.Join(seq, ",") != "clearPendingOp,result" {
-			bad = "an AFTResult produces [" + strings.Join(seq, ",") + "], want exactly one dequeue decision followed by one result: " + p.describe(c.P)
-		}
 		// a result that cannot be accounted for (unknown id, duplicate terminal result) ends the handling with an
-		// error at once: carrying the error over to later results of the batch would let a later success overwrite it
-		if ci := idx(p, "clearPendingOp"); ci >= 0 {
-			errObj, _ := p.Events[ci].Data.(types.Object)
-			if errObj == nil {
-				bad = "the error of clearPendingOp is not kept"
-			} else if factsAfter(info, p, ci, len(p.Events)).Obj(errObj) != -1 {
-				rs, isRet := p.EndNode.(*ast.ReturnStmt)
-				if p.End != "return" || !isRet || len(rs.Results) != 1 || isNilIdent(info, rs.Results[0]) {
-					bad = "a result that matches no pending operation does not end the handling with an error (the loop goes on, and the error can be lost): " + p.describe(c.P)
-				}
+		// error at once — carrying the error over to later results of the batch would let a later success overwrite
+		// it — and puts nothing into the result queue (the value returned with the error is nil: Results() would hand
+		// out a nil entry and AckResult dereference it); an accounted result is appended exactly once, non-nil
+		ci := idx(p, "clearPendingOp")
+		if ci != 0 || p.count("clearPendingOp") != 1 {
+			bad = "an AFTResult produces [" + strings.Join(seq, ",") + "], want exactly one dequeue decision first: " + p.describe(c.P)
+			continue
+		}
+		errObj, _ := p.Events[ci].Data.(types.Object)
+		resObj := resOf[p.Events[ci].Node.(*ast.CallExpr)]
+		if errObj == nil || resObj == nil {
+			bad = "the result and error of clearPendingOp are not kept"
+			continue
+		}
+		f := factsAfter(info, p, ci, len(p.Events))
+		nRes := p.count("result")
+		switch {
+		case f.Obj(errObj) == +1:
+			rs, isRet := p.EndNode.(*ast.ReturnStmt)
+			if p.End != "return" || !isRet || len(rs.Results) != 1 || isNilIdent(info, rs.Results[0]) {
+				bad = "a result that matches no pending operation does not end the handling with an error (the loop goes on, and the error can be lost): " + p.describe(c.P)
+			} else if nRes != 0 {
+				bad = "the value returned together with an error (nil) is appended to the result queue: Results() then contains a nil entry and AckResult dereferences it: " + p.describe(c.P)
 			}
+		case f.Obj(errObj) == -1:
+			ri := idx(p, "result")
+			switch {
+			case nRes == 1 && factsAfter(info, p, ci, ri).Obj(resObj) == +1:
+			case nRes == 0 && f.Obj(resObj) == -1:
+			default:
+				bad = fmt.Sprintf("an accounted AFTResult appends %d entries to the result queue (want one, known non-nil; none only when there is no result): %s", nRes, p.describe(c.P))
+			}
+		default:
+			bad = "the path does not decide whether clearPendingOp failed: " + p.describe(c.P)
 		}
 	}
 	c.check(bad == "", rule, fi.Name, "one dequeue decision and one result per AFTResult", c.P.pos(loop.Pos()), fmt.Sprintf("%d loop paths", len(lp)), bad)
@@ -859,7 +897,33 @@ func ruleConnectLifecycle(c *Ctx) {
 				has = true
 			}
 		}
-		c.check(has, rule, f.Name, "shuts the goroutines down first", c.P.pos(f.Decl.Pos()), "calls disconnect()", n+" does not call disconnect()")
+		// … on every path: a client that was handed a stub has no connection of its own, yet its Modify stream
+		// and its goroutines must be shut down all the same (the server keeps the session, and its parameters
+		// constrain every later session, until the stream ends)
+		why := n + " does not call disconnect()"
+		if has && dc != nil {
+			finfo := f.Pkg.TypesInfo
+			evd := func(nd ast.Node) []Event {
+				var out []Event
+				for _, call := range callsIn(nd) {
+					if calleeObj(finfo, call) == dc.Obj {
+						out = append(out, Event{Kind: "disconnect", Node: call})
+					}
+				}
+				return out
+			}
+			dpaths, dpe := enumFunc(f, evd, nil)
+			c.Sites += len(dpaths)
+			if dpe.overflow || len(dpe.unsup) > 0 {
+				has, why = false, "path enumeration incomplete"
+			}
+			for _, p := range dpaths {
+				if p.End != "panic" && !p.has("disconnect") {
+					has, why = false, n+" can return without shutting the stream and its goroutines down: "+p.describe(c.P)
+				}
+			}
+		}
+		c.check(has, rule, f.Name, "shuts the goroutines down first", c.P.pos(f.Decl.Pos()), "calls disconnect() on every path", why)
 	}
 }
 
@@ -1094,7 +1158,32 @@ func ruleQSkipsDeadSender(c *Ctx) {
 			continue
 		}
 		n++
-		if !p.Entails(&FLit{"b:call:chIsClosed#1", 2, 1}) {
+		running := p.Entails(&FLit{"b:call:chIsClosed#1", 2, 1})
+		// the same probe written in place: the default arm of a select whose other arm receives from the sender's exit channel
+		for _, cs := range p.Conds {
+			sel, isSel := cs.Node.(*ast.SelectStmt)
+			if !isSel || cs.Label != "select default" {
+				continue
+			}
+			for _, cl := range sel.Body.List {
+				cc := cl.(*ast.CommClause)
+				if cc.Comm == nil {
+					continue
+				}
+				ast.Inspect(cc.Comm, func(m ast.Node) bool {
+					if u, ok := m.(*ast.UnaryExpr); ok && u.Op == token.ARROW && strings.HasSuffix(types.ExprString(u.X), ".sendExitCh") {
+						// only a pure probe counts: the receiving arm leaves the function
+						if len(cc.Body) == 1 {
+							if _, isRet := cc.Body[0].(*ast.ReturnStmt); isRet {
+								running = true
+							}
+						}
+					}
+					return true
+				})
+			}
+		}
+		if !running {
 			bad = "a request can be handed to modifyCh on a path that has not established that the sender is still running: " + p.describe(c.P)
 		}
 		// the send must be a select alternative
@@ -1114,4 +1203,63 @@ func ruleQSkipsDeadSender(c *Ctx) {
 		return
 	}
 	c.check(bad == "", rule, fi.Name, "requests are only handed to a running sender, and the hand-over gives up when it exits", c.P.pos(fi.Decl.Pos()), fmt.Sprintf("%d sending paths", n), bad)
+}
+
+// ERROR-SINKS — addSendErr / addReadErr are where a stream fault becomes visible to AwaitConverged: each
+// appends its argument to its own error list on every path (no class of error is filtered out — io.EOF on
+// send is the only trace of a stream the server closed cleanly while requests were still queued).
+func ruleErrorSinks(c *Ctx) {
+	const rule = "ERROR-SINKS"
+	for _, t := range [][2]string{{"addSendErr", "sendErr"}, {"addReadErr", "readErr"}} {
+		fi := c.need("client", "Client", t[0])
+		if fi == nil {
+			continue
+		}
+		info := fi.Pkg.TypesInfo
+		ps := paramObjs(info, fi.Decl)
+		if len(ps) != 1 {
+			c.undecided(rule, fi.Name, "signature", c.P.pos(fi.Decl.Pos()), "unexpected parameters")
+			continue
+		}
+		errP := ps[0]
+		ev := func(n ast.Node) []Event {
+			var out []Event
+			inspectNoFuncLit(n, func(m ast.Node) bool {
+				as, ok := m.(*ast.AssignStmt)
+				if !ok || len(as.Lhs) != 1 || len(as.Rhs) != 1 {
+					return true
+				}
+				se, ok := ast.Unparen(as.Lhs[0]).(*ast.SelectorExpr)
+				if !ok || se.Sel.Name != t[1] {
+					return true
+				}
+				call, ok := ast.Unparen(as.Rhs[0]).(*ast.CallExpr)
+				if !ok || len(call.Args) < 2 {
+					return true
+				}
+				if id, ok := ast.Unparen(call.Fun).(*ast.Ident); !ok || id.Name != "append" || types.ExprString(call.Args[0]) != types.ExprString(as.Lhs[0]) {
+					return true
+				}
+				for _, a := range call.Args[1:] {
+					if aliasRootObj(info, fi.Decl, a) == errP {
+						out = append(out, Event{Kind: "record", Node: as})
+					}
+				}
+				return true
+			})
+			return out
+		}
+		paths, pe := enumFunc(fi, ev, nil)
+		c.Sites += len(paths)
+		bad := ""
+		if pe.overflow || len(pe.unsup) > 0 || len(paths) == 0 {
+			bad = "path enumeration incomplete"
+		}
+		for _, p := range paths {
+			if p.End != "panic" && p.count("record") != 1 {
+				bad = fmt.Sprintf("%s records its error %d times on the path %s: an error that is not recorded is invisible to AwaitConverged, which then waits for the caller's deadline (or reports convergence) instead of returning the fault", t[0], p.count("record"), p.describe(c.P))
+			}
+		}
+		c.check(bad == "", rule, fi.Name, "appends its argument to "+t[1]+" on every path", c.P.pos(fi.Decl.Pos()), fmt.Sprintf("%d paths", len(paths)), bad)
+	}
 }
